@@ -517,281 +517,3 @@ Theorem ab_reduction_scaling (F : fieldType) (r n : nat) (A D : 'M[F]_n) (B : 'M
   A \in unitmx -> D \in unitmx -> (B *m D) *m invmx (A *m D) = B *m invmx A.
 Proof. exact: CalAlgebra.ab_scaling. Qed.
 Print Assumptions ab_reduction_scaling.
-
-(* ================================================================================================
-   Part 3 (session 5, package K): the leakage types from a physical model, and fill_* for every n.
-   (Stated after the mathcomp imports: Coq's own order relations and arithmetic on nat are written with
-   %coq_nat, membership with List.In.) *)
-Require LV.Cal.LeakPhysical LV.Cal.LeakPhysicalEx LV.Cal.EndToEndLeak LV.Cal.EndToEndLeakEx
-        LV.Cal.FillLoops LV.Cal.FillLoopsProofs LV.Cal.FillLoopsRecovers.
-Local Close Scope ring_scope.
-Import LV.Cal.LeakPhysical LV.Cal.LeakPhysicalEx LV.Cal.EndToEndLeak LV.Cal.EndToEndLeakEx
-       LV.Cal.FillLoops LV.Cal.FillLoopsProofs LV.Cal.FillLoopsRecovers.
-
-(* Block-diagonal argument, every number of ports n, every field, every equivalence `same' on the ports that the
-   standard S respects (S[i,j] = 0 between classes) and any error boxes that respect it (diagonal boxes respect
-   every partition): the response Mc of a well-posed T network,  Mc (Tx S + Tm) = Ts S + Ti  with one solution,
-   has no entry between different classes.  No inverse is formed. *)
-Theorem core_response_block_diagonal_T (K : CField) (n : nat) (same : nat -> nat -> bool) :
-  (forall i j, (i < n)%coq_nat -> (j < n)%coq_nat -> same i j = true -> same j i = true) ->
-  (forall i j k, (i < n)%coq_nat -> (j < n)%coq_nat -> (k < n)%coq_nat -> same i j = true -> same j k = true -> same i k = true) ->
-  forall S : nat -> nat -> K, bd K n same S ->
-  forall (Ts Ti Tx Tm : nat -> nat -> K) (mr : nat) (Mc : nat -> nat -> K),
-  bd K n same Ts -> bd K n same Ti -> bd K n same Tx -> bd K n same Tm -> (mr <= n)%coq_nat ->
-  left_kernel_trivial K n (NT K n S Tx Tm) -> physT K n S Ts Ti Tx Tm mr Mc ->
-  forall i k, (i < mr)%coq_nat -> (k < n)%coq_nat -> same i k = false -> Mc i k = @c0 K.
-Proof. exact (LeakPhysical.physT_offblock K n same). Qed.
-Print Assumptions core_response_block_diagonal_T.
-
-(* the same for a U network  (Um - S Ux) Mc = S Us - Ui *)
-Theorem core_response_block_diagonal_U (K : CField) (n : nat) (same : nat -> nat -> bool) :
-  (forall i j, (i < n)%coq_nat -> (j < n)%coq_nat -> same i j = true -> same j i = true) ->
-  (forall i j k, (i < n)%coq_nat -> (j < n)%coq_nat -> (k < n)%coq_nat -> same i j = true -> same j k = true -> same i k = true) ->
-  forall S : nat -> nat -> K, bd K n same S ->
-  forall (Um Ui Ux Us : nat -> nat -> K) (mc : nat) (Mc : nat -> nat -> K),
-  bd K n same Um -> bd K n same Ui -> bd K n same Ux -> bd K n same Us -> (mc <= n)%coq_nat ->
-  right_kernel_trivial K n (NU K n S Um Ux) -> physU K n S Um Ui Ux Us mc Mc ->
-  forall k j, (k < n)%coq_nat -> (j < mc)%coq_nat -> same k j = false -> Mc k j = @c0 K.
-Proof. exact (LeakPhysical.physU_offblock K n same). Qed.
-Print Assumptions core_response_block_diagonal_U.
-
-(* and for the per-column systems of UE14 / E12:  (Um_c - S Ux_c) Mc(:,c) = (S us_c - ui_c) e_c *)
-Theorem core_response_block_diagonal_UE14 (K : CField) (n : nat) (same : nat -> nat -> bool) :
-  (forall i, (i < n)%coq_nat -> same i i = true) ->
-  (forall i j, (i < n)%coq_nat -> (j < n)%coq_nat -> same i j = true -> same j i = true) ->
-  (forall i j k, (i < n)%coq_nat -> (j < n)%coq_nat -> (k < n)%coq_nat -> same i j = true -> same j k = true -> same i k = true) ->
-  forall S : nat -> nat -> K, bd K n same S ->
-  forall (um ux : nat -> nat -> K) (ui us : nat -> K) (mc : nat) (Mc : nat -> nat -> K), (mc <= n)%coq_nat ->
-  (forall c, (c < mc)%coq_nat -> right_kernel_trivial K n (N14 K S um ux c)) -> phys14 K n S um ux ui us mc Mc ->
-  forall k c, (k < n)%coq_nat -> (c < mc)%coq_nat -> same k c = false -> Mc k c = @c0 K.
-Proof. exact (LeakPhysical.phys14_offblock K n same). Qed.
-Print Assumptions core_response_block_diagonal_UE14.
-
-(* the physical equation IS the documented equation "= 0" (both directions, every cell) *)
-Theorem physical_T_iff_documented (K : CField) (n : nat) (S Ts Ti Tx Tm : nat -> nat -> K) (mr : nat) (Mc : nat -> nat -> K) :
-  physT K n S Ts Ti Tx Tm mr Mc <->
-  forall i j, (i < mr)%coq_nat -> (j < n)%coq_nat -> docT K n S Ts Ti Tx Tm Mc i j = @c0 K.
-Proof. exact (LeakPhysical.physT_iff_doc K n S Ts Ti Tx Tm mr Mc). Qed.
-Print Assumptions physical_T_iff_documented.
-
-Theorem physical_U_iff_documented (K : CField) (n : nat) (S Um Ui Ux Us : nat -> nat -> K) (mc : nat) (Mc : nat -> nat -> K) :
-  physU K n S Um Ui Ux Us mc Mc <->
-  forall i j, (i < n)%coq_nat -> (j < mc)%coq_nat -> docU K n S Um Ui Ux Us Mc i j = @c0 K.
-Proof. exact (LeakPhysical.physU_iff_doc K n S Um Ui Ux Us mc Mc). Qed.
-Print Assumptions physical_U_iff_documented.
-
-Theorem physical_UE14_iff_documented (K : CField) (n : nat) (S um ux : nat -> nat -> K) (ui us : nat -> K) (mc : nat) (Mc : nat -> nat -> K) :
-  phys14 K n S um ux ui us mc Mc <->
-  forall i c, (i < n)%coq_nat -> (c < mc)%coq_nat -> doc14 K n S um ux ui us Mc i c = @c0 K.
-Proof. exact (LeakPhysical.phys14_iff_doc K n S um ux ui us mc Mc). Qed.
-Print Assumptions physical_UE14_iff_documented.
-
-(* what the model of _vnacal_new_add_common records as connectivity matrix (inversion of the accepting path, all arguments) *)
-Theorem accepted_records_connectivity : forall a m, add_common a = Accepted m ->
-  ms_conn m = if is_16 (aa_ty a) then None
-              else Some (build_connectivity (Nat.max (aa_mr a) (aa_mc a)) (ms_s m)).
-Proof. exact LeakPhysical.accepted_conn_built_lemma. Qed.
-Print Assumptions accepted_records_connectivity.
-
-(* TE10, all dimensions rows <= columns, every field in which sample counts are invertible, every list of standards
-   (any S cells: parameters, known zeros, cells not given with ANY value fxof), connectivity matrix as computed by
-   the model of build_connectivity_matrix: if every standard is measured by one well-posed T8 core network (error
-   terms fe, unity term 1) plus additive leakage El off the diagonal, then (leak_conclusion)
-     - every cell the solver samples measures El exactly,
-     - every leakage mean is El (for every number of samples >= 1),
-     - if every off-diagonal cell has a sample or no leakage: the saved leakage terms are El, the corrected values
-       m_adjusted are the core response, and the documented T8 expression with M' = m_adjusted vanishes in EVERY cell. *)
-Theorem leak_physical_TE10 (K : CField) (mr mc : nat) (fe : nat -> K) (el : nat -> nat -> K) (pv : Z -> K)
-        (ms : list (mvals (ops_of K))) (fxof : mvals (ops_of K) -> nat -> K) (core : mvals (ops_of K) -> nat -> nat -> K) :
-  (forall k : nat, k <> O -> onat (ops_of K) k <> @c0 K) -> (mr <= mc)%coq_nat ->
-  (forall mv, List.In mv ms -> conn_built K mr mc mv /\ te_network K mr mc fe pv fxof core mv /\ measured_with_leakage K mr mc el core mv) ->
-  leak_conclusion K mr mc fe el pv ms fxof core TE10.
-Proof. exact (LeakPhysical.leak_TE10_lemma K mr mc fe el pv ms fxof core). Qed.
-Print Assumptions leak_physical_TE10.
-
-Theorem leak_physical_UE10 (K : CField) (mr mc : nat) (fe : nat -> K) (el : nat -> nat -> K) (pv : Z -> K)
-        (ms : list (mvals (ops_of K))) (fxof : mvals (ops_of K) -> nat -> K) (core : mvals (ops_of K) -> nat -> nat -> K) :
-  (forall k : nat, k <> O -> onat (ops_of K) k <> @c0 K) -> (mc <= mr)%coq_nat ->
-  (forall mv, List.In mv ms -> conn_built K mr mc mv /\ ue_network K mr mc fe pv fxof core mv /\ measured_with_leakage K mr mc el core mv) ->
-  leak_conclusion K mr mc fe el pv ms fxof core UE10.
-Proof. exact (LeakPhysical.leak_UE10_lemma K mr mc fe el pv ms fxof core). Qed.
-Print Assumptions leak_physical_UE10.
-
-(* UE14 and E12 (which is measured and solved as E12_UE14) *)
-Theorem leak_physical_UE14_E12 (K : CField) (mr mc : nat) (fe : nat -> K) (el : nat -> nat -> K) (pv : Z -> K)
-        (ms : list (mvals (ops_of K))) (fxof : mvals (ops_of K) -> nat -> K) (core : mvals (ops_of K) -> nat -> nat -> K) :
-  (forall k : nat, k <> O -> onat (ops_of K) k <> @c0 K) -> forall ty : caltype, ty = UE14 \/ ty = E12_UE14 -> (mc <= mr)%coq_nat ->
-  (forall mv, List.In mv ms -> conn_built K mr mc mv /\ c14_network K mr mc fe pv fxof core ty mv /\ measured_with_leakage K mr mc el core mv) ->
-  leak_conclusion K mr mc fe el pv ms fxof core ty.
-Proof. exact (LeakPhysical.leak_UE14_lemma K mr mc fe el pv ms fxof core). Qed.
-Print Assumptions leak_physical_UE14_E12.
-
-(* the hypotheses are met (2 x 2 TE10 at Q[i], two double reflects entered through add_common, El12 = 1/4 + i/8,
-   El21 = 1/3; both cells sampled; the saved terms computed by the theorem) *)
-Theorem leak_physical_TE10_nonvacuous :
-  (forall mv, List.In mv lx_ms ->
-     conn_built QIF 2 2 mv /\ te_network QIF 2 2 lx_fe lx_pv lx_fx lx_core mv /\
-     measured_with_leakage QIF 2 2 lx_el lx_core mv) /\
-  covered QIF 2 2 lx_el lx_ms /\
-  (forall r c, (r < 2)%coq_nat -> (c < 2)%coq_nat -> r <> c -> exists mv, List.In mv lx_ms /\ sampled QIF 2 2 mv r c = true) /\
-  leak_terms (ops_of QIF) TE10 2 2 lx_ms = (mkqi 1 4 1 8 :: mkqi 1 3 0 1 :: nil)%list /\
-  length (ms_eqs (lx_meas 3 4)) = 2%nat.
-Proof. exact LeakPhysicalEx.leak_TE10_nonvacuous. Qed.
-Print Assumptions leak_physical_TE10_nonvacuous.
-
-(* PARTIAL (bound in the statement: standards of the family zcfgs = dims 1..3, every port set, its known-zero masks;
-   the residual form row_res, not yet the rdot form of c01_model_end_to_end_partial): the calibration hypothesis of the
-   composition derived from the physical hypothesis.  Every list of such standards measured by one network of the
-   type: every row of every assembled system is satisfied by the true terms, and the saved leakage terms are El. *)
-Theorem c01_leak_rows_satisfied_partial (K : CField) (mr mc : nat) (fe : nat -> K) (el : nat -> nat -> K) (pv : Z -> K)
-        (ms : list (mvals (ops_of K))) (fxof : mvals (ops_of K) -> nat -> K) (core : mvals (ops_of K) -> nat -> nat -> K) :
-  (forall k : nat, k <> O -> onat (ops_of K) k <> @c0 K) ->
-  forall ty, List.In ty (TE10 :: UE10 :: UE14 :: E12_UE14 :: nil)%list ->
-  (forall mv, List.In mv ms -> std_of K ty mr mc mv /\ network_of K mr mc fe pv fxof core ty mv /\ measured_with_leakage K mr mc el core mv) ->
-  covered K mr mc el ms ->
-  leak_terms (ops_of K) ty mr mc ms = List.map (fun rc => el (fst rc) (snd rc)) (offdiag_cells mr mc) /\
-  forall sys, (sys < systems_of ty mc)%coq_nat ->
-    forall row, List.In row (assemble (ops_of K) ty mr mc pv ms sys) -> row_res K ty mr mc fe sys row = @c0 K.
-Proof. exact (EndToEndLeak.leak_rows_satisfied_lemma K mr mc fe el pv ms fxof core). Qed.
-Print Assumptions c01_leak_rows_satisfied_partial.
-
-Theorem c01_leak_rows_satisfied_nonvacuous :
-  (forall mv, List.In mv ly_ms ->
-     std_of QIF TE10 2 2 mv /\ network_of QIF 2 2 lx_fe ly_pv lx_fx lx_core TE10 mv /\
-     measured_with_leakage QIF 2 2 lx_el lx_core mv) /\
-  covered QIF 2 2 lx_el ly_ms /\
-  length (assemble (ops_of QIF) TE10 2 2 ly_pv ly_ms 0) = 3%nat /\
-  leak_terms (ops_of QIF) TE10 2 2 ly_ms = (mkqi 1 4 1 8 :: mkqi 1 3 0 1 :: nil)%list /\
-  forall row, List.In row (assemble (ops_of QIF) TE10 2 2 ly_pv ly_ms 0) -> row_res QIF TE10 2 2 lx_fe 0 row = @c0 QIF.
-Proof. exact EndToEndLeakEx.leak_rows_satisfied_nonvacuous. Qed.
-Print Assumptions c01_leak_rows_satisfied_nonvacuous.
-
-(* fill_t8 / fill_u8 / fill_t16 / fill_u16 / fill_ue14 / fill_e12 written as the C loops (nested folds with in-place
-   updates of a and b, the leakage pointer el_cur as a counter; Cal/FillLoops.v) compute what the closed-form model
-   Cal/ApplyModel.v computes -- the model the exact tie 5 compares with the compiled functions -- for EVERY square
-   dimension n, every value type, all arrays. *)
-Theorem loop_fill_eq_model (O : Ops) (ty : caltype) (n : nat) (e m : list O) :
-  apply_fill O ty n n e m = (let '(m', a, b) := loop_apply_fill O ty n e m in Filled m' a b).
-Proof. exact (FillLoopsProofs.loop_fill_eq_model O ty n e m). Qed.
-Print Assumptions loop_fill_eq_model.
-
-(* fill_solves without its bound: EVERY n, every field, all e, m, s: the filled (A, B) satisfy
-   (A S - B)[i,j] = - doc[i,j] (T) resp. (S A - B)[i,j] = - doc[i,j] (U, UE14, E12), doc the documented expression. *)
-Theorem fill_solves_every_n (K : CField) (ty : caltype) (n : nat) (e m s : list K) :
-  List.In ty stored_types -> (1 <= n)%coq_nat -> length m = (n * n)%coq_nat ->
-  exists m' a b, apply_fill (ops_of K) ty n n e m = Filled m' a b /\
-    forall i j, (i < n)%coq_nat -> (j < n)%coq_nat ->
-      csub (prod_cell K ty n n a s i j) (g (ops_of K) b (i * n + j)%coq_nat) = copp (doc_cell K ty n n e m s i j).
-Proof. exact (FillLoopsProofs.fill_solves_every_n K ty n e m s). Qed.
-Print Assumptions fill_solves_every_n.
-
-Theorem loop_fill_solves_every_n (K : CField) (ty : caltype) (n : nat) (e m s : list K) :
-  List.In ty stored_types -> (1 <= n)%coq_nat -> length m = (n * n)%coq_nat ->
-  let '(m', a, b) := loop_apply_fill (ops_of K) ty n e m in
-  forall i j, (i < n)%coq_nat -> (j < n)%coq_nat ->
-    csub (prod_cell K ty n n a s i j) (g (ops_of K) b (i * n + j)%coq_nat) = copp (doc_cell K ty n n e m s i j).
-Proof. exact (FillLoopsProofs.loop_fill_solves_every_n K ty n e m s). Qed.
-Print Assumptions loop_fill_solves_every_n.
-
-(* apply_model_recovers_S without its bound: every square dimension n *)
-Theorem apply_model_recovers_S_every_n (ty : caltype) (n : nat) (e m s : list qi) :
-  List.In ty stored_types -> (1 <= n)%coq_nat -> length m = (n * n)%coq_nat -> length s = (n * n)%coq_nat ->
-  (forall i j, (i < n)%coq_nat -> (j < n)%coq_nat -> doc_cell QIF ty n n e m s i j = @c0 QIF) ->
-  forall a b x, q_apply ty n n e m = AOk a b x -> x = s.
-Proof. exact (FillLoopsRecovers.apply_model_recovers_S_every_n ty n e m s). Qed.
-Print Assumptions apply_model_recovers_S_every_n.
-
-(* beyond the old bound: T8 5 x 5 *)
-Theorem apply_model_recovers_S_n5_nonvacuous :
-  (forall i j, (i < 5)%coq_nat -> (j < 5)%coq_nat -> doc_cell QIF T8 5 5 kf_e5 kf_s5 kf_s5 i j = @c0 QIF) /\
-  exists a b, q_apply T8 5 5 kf_e5 kf_s5 = AOk a b kf_s5.
-Proof. exact FillLoopsRecovers.apply_model_recovers_S_n5_nonvacuous. Qed.
-Print Assumptions apply_model_recovers_S_n5_nonvacuous.
-
-(* ================================================================================================
-   Part 4 (session 5, package K, second box): the composition for the leakage types from the physical hypothesis
-   on both halves, and the E-term form of the physical hypothesis. *)
-Require LV.Cal.EndToEndAll LV.Cal.EndToEndDevice LV.Cal.EndToEndFinal LV.Cal.LeakETerms.
-Import LV.Cal.EndToEndAll LV.Cal.EndToEndDevice LV.Cal.EndToEndFinal LV.Cal.LeakETerms.
-
-(* row_res = 0 is the rdot hypothesis of the solve theorems (every type, all dimensions) *)
-Theorem rows_satisfied_rdot ty mr mc (fe : nat -> qi) (sys : nat) (row : list qi * qi) :
-  length (fst row) = unknowns ty mr mc ->
-  row_res QIF ty mr mc fe sys row = @c0 QIF ->
-  rdot (unknowns ty mr mc) (fst row) (x_of_sys ty mr mc fe sys) = snd row.
-Proof. exact (EndToEndAll.rows_satisfied_rdot ty mr mc fe sys row). Qed.
-Print Assumptions rows_satisfied_rdot.
-
-(* PARTIAL (bound: standards of the family zcfgs, dims 1..3): physical network + every cell covered + every system
-   with enough equations and full column rank (the form of Properties_C20.determining_set_solves) => the solve
-   model SUCCEEDS with the network's vector and the saved leakage terms are El *)
-Theorem leak_solve_returns_true_terms_partial (mr mc : nat) (fe : nat -> qi) (el : nat -> nat -> qi) (pv : Z -> qi)
-        (ms : list (mvals qops)) (fxof : mvals qops -> nat -> qi) (core : mvals qops -> nat -> nat -> qi) (sty : caltype) :
-  List.In sty (TE10 :: UE10 :: UE14 :: E12_UE14 :: nil)%list ->
-  (forall mv, List.In mv ms ->
-     std_of QIF sty mr mc mv /\ network_of QIF mr mc fe pv fxof core sty mv /\ measured_with_leakage QIF mr mc el core mv) ->
-  covered QIF mr mc el ms ->
-  (forall sys, (sys < systems_of sty mc)%coq_nat ->
-     let rows := q_assemble sty mr mc ms pv sys in
-     (unknowns sty mr mc <= length rows)%coq_nat /\ kernel_trivial (unknowns sty mr mc) rows) ->
-  q_error_terms sty mr mc ms pv =
-  Some (if caltype_eqb sty E12_UE14 then convert_ue14_to_e12 qops mr mc (e_vector qops sty mr mc ms (xs_of sty mr mc fe))
-        else e_vector qops sty mr mc ms (xs_of sty mr mc fe)) /\
-  leak_terms qops sty mr mc ms = List.map (fun rc => el (fst rc) (snd rc)) (offdiag_cells mr mc).
-Proof. exact (EndToEndAll.leak_solve_returns_true_terms_lemma mr mc fe el pv ms fxof core sty). Qed.
-Print Assumptions leak_solve_returns_true_terms_partial.
-
-(* the device half, every field: what doc_cell reads out of the SAVED vector (through the layout; through
-   convert_ue14_to_e12 for E12) at the measured matrix Mc + El vanishes when Mc satisfies the core equation.
-   Bound in the statement: dev_cases_all = TE10, UE10, UE14, E12 x square dimensions 1..3. *)
-Theorem device_doc_vanishes (K : CField) (ty : caltype) (n : nat) (fe : nat -> K) (el Mc : nat -> nat -> K) (fs : nat -> K) :
-  List.In (ty, n) dev_cases_all ->
-  device_network K ty n fe Mc (fun a b => fs (a * n + b)%coq_nat) ->
-  forall i j, (i < n)%coq_nat -> (j < n)%coq_nat ->
-    doc_cell K ty n n (dev_vector K ty n fe el) (dev_m K n Mc el) (lst K (n * n)%coq_nat fs) i j = @c0 K.
-Proof. exact (EndToEndDevice.device_doc_vanishes_lemma K ty n fe el Mc fs). Qed.
-Print Assumptions device_doc_vanishes.
-
-(* c01_model_end_to_end_leak, PARTIAL by its bound (in the statement): stored type TE10 / UE10 / UE14 / E12, square
-   dimensions 1..3 (dev_cases_all), standards of the family zcfgs.  Solve returns the network's vector; apply on it
-   returns S for EVERY device measured by the same network.  (1x2 / 2x1 and dimension 4: c01_model_end_to_end_partial
-   with the device equation assumed.) *)
-Theorem c01_model_end_to_end_leak_partial (ty : caltype) (n : nat) :
-  List.In (ty, n) dev_cases_all ->
-  let sty := solve_type ty in
-  forall (fe : nat -> qi) (el : nat -> nat -> qi) (pv : Z -> qi) (ms : list (mvals qops))
-         (fxof : mvals qops -> nat -> qi) (core : mvals qops -> nat -> nat -> qi),
-  (forall mv, List.In mv ms ->
-     std_of QIF sty n n mv /\ network_of QIF n n fe pv fxof core sty mv /\ measured_with_leakage QIF n n el core mv) ->
-  covered QIF n n el ms ->
-  (forall sys, (sys < systems_of sty n)%coq_nat ->
-     let rows := q_assemble sty n n ms pv sys in
-     (unknowns sty n n <= length rows)%coq_nat /\ kernel_trivial (unknowns sty n n) rows) ->
-  let e_true := dev_vector QIF ty n fe el in
-  q_error_terms sty n n ms pv = Some e_true /\
-  forall (m s : list qi) (Mc : nat -> nat -> qi), length m = (n * n)%coq_nat -> length s = (n * n)%coq_nat ->
-    device_network QIF ty n fe Mc (fun a b => List.nth (a * n + b)%coq_nat s (@c0 QIF)) ->
-    (forall r c, (r < n)%coq_nat -> (c < n)%coq_nat ->
-       List.nth (r * n + c)%coq_nat m (@c0 QIF) = @cadd QIF (Mc r c) (if Nat.eqb r c then @c0 QIF else el r c)) ->
-    forall a b x, q_apply ty n n e_true m = AOk a b x -> x = s.
-Proof. exact (EndToEndFinal.c01_model_end_to_end_leak_lemma2 ty n). Qed.
-Print Assumptions c01_model_end_to_end_leak_partial.
-
-(* E terms (vnacal_layout.h): the 8-term core as a physical box [Ed Er; Et Em] with wave variables, no inverse:
-   B = S (Et e_j + Em B), Mc = Ed + Er B.  It yields the U / T / UE14 determining equations with the documented
-   conversions (Um = Er^-1, Ui = -Er^-1 Ed, Ux = Em Er^-1, Us = Et - Em Er^-1 Ed; Ts = Er - Ed Et^-1 Em, Ti = Ed Et^-1,
-   Tx = -Et^-1 Em, Tm = Et^-1) times ANY common factor k0 -- every n, every field. *)
-Theorem eterms_give_physU (K : CField) (n : nat) (Sm : nat -> nat -> K) (ed er et em : nat -> K) (k0 : K) (mc : nat) (Mc : nat -> nat -> K) :
-  (mc <= n)%coq_nat -> (forall i, (i < n)%coq_nat -> er i <> @c0 K) ->
-  physE K n Sm ed er et em n mc Mc ->
-  physU K n Sm (eu_Um K er k0) (eu_Ui K ed er k0) (eu_Ux K er em k0) (eu_Us K ed er et em k0) mc Mc.
-Proof. exact (LeakETerms.eterms_give_physU K n Sm ed er et em k0 mc Mc). Qed.
-Print Assumptions eterms_give_physU.
-
-Theorem eterms_give_physT (K : CField) (n : nat) (Sm : nat -> nat -> K) (ed er et em : nat -> K) (k0 : K) (mr : nat) (Mc : nat -> nat -> K) :
-  (mr <= n)%coq_nat -> (forall i, (i < n)%coq_nat -> et i <> @c0 K) ->
-  right_kernel_trivial K n (ISE K Sm em) ->
-  physE K n Sm ed er et em mr n Mc ->
-  physT K n Sm (et_Ts K ed er et em k0) (et_Ti K ed et k0) (et_Tx K et em k0) (et_Tm K et k0) mr Mc.
-Proof. exact (LeakETerms.eterms_give_physT K n Sm ed er et em k0 mr Mc). Qed.
-Print Assumptions eterms_give_physT.
